@@ -272,4 +272,17 @@ theorem semGroup_shape (key : Val → Res) (k : Val → Val) (l : List Val)
         · simp only [List.forall_mem_cons]
           exact ⟨hc', h4⟩
 
+/-! ### accumulate -/
+
+theorem semAcc_total (g : Val → Val → Res) (h : Val → Val → Val) (hg : ∀ z v, g z v = .ok (h z v))
+    (l : List Val) (e : Option Err) (z : Val) :
+    semAcc g (some z) l e = ⟨(l.scanl h z).tail, e⟩ := by
+  induction l generalizing z with
+  | nil => rfl
+  | cons v r ih =>
+    simp only [semAcc, hg, ih, List.scanl_cons, List.tail_cons, Strm.cons]
+    cases r with
+    | nil => rfl
+    | cons w r' => simp [List.scanl_cons]
+
 end Pipeline
